@@ -20,3 +20,6 @@ func VerifGenerate(files []*protogen.File) error {
 // VerifGenerateWith runs the Go client generator with the given plugin (so that the
 // caller can read the emission trace of exactly this generator).
 func VerifGenerateWith(p *protogen.Plugin) error { return New(p).Generate() }
+
+func VerifSnakeToUpperCamel(s string) string  { return snakeToUpperCamel(s) }
+func VerifHeaderNameToFuncName(s string) string { return headerNameToFuncName(s) }
